@@ -10,7 +10,7 @@ import (
 
 // Run is the C04 check: reference-implementation monitor over generic multi-package programs.
 func Run(c *core.Ctx) int {
-	n := c.N(16, 600)
+	n := c.N(16, 300)
 	var mu sync.Mutex
 	programs, lines := 0, 0
 	distinct := map[string]bool{}
